@@ -291,6 +291,13 @@ func genKeys(repo string) (string, []string, error) {
 	}
 	fmt.Fprintf(&b, "/-- statement listings of the lockup iterator constructors and of the storing side -/\ndef lockupIteratorsListing : List String :=\n  %s\n\n", leanStrList(all))
 
+	if err := genKeysColl(repo, &b, &notes); err != nil {
+		return "", nil, err
+	}
+	if err := genKeysX(repo, &b, &notes); err != nil {
+		return "", nil, err
+	}
+
 	b.WriteString("end DymVerif.Gen.Keys\n")
 	return b.String(), notes, nil
 }
